@@ -564,12 +564,22 @@ def code_rules(chk, repo):
            what='the stored uncertainty matrix is np.array of the file\'s '
                 'InvCovMat.mat, unchanged',
            found=' | '.join(sym.show(m)[:100] for m in mats))
-    # correlations split over files are rebuilt after merging (C13 rule)
-    refcmp.check(chk, 'R14.3', INC,
-                 repo.func(INC, 'ThermochemIncomplete.update'),
-                 c13.REF_UPDATE, key='ThermochemIncomplete.update',
-                 what='merging data split over two files commits all fields '
-                      'and rebuilds the correlation unconditionally')
+    # correlations split over files: the merge commits every field and
+    # rebuilds the correlation unconditionally, last
+    upd = repo.func(INC, 'ThermochemIncomplete.update')
+    tail = upd.body[-6:]
+    want = ['self.set_range(', 'self.T_ref =', 'self.ND_H_ref =',
+            'self.ND_S_ref =', 'self.ND_Cp_data =',
+            'self._setup_correlation()']
+    texts = [src(t) for t in tail]
+    ok = len(tail) == 6 and all(
+        any(tx.startswith(w) for tx in texts) for w in want) and \
+        texts[-1] == 'self._setup_correlation()'
+    chk.ob('R14.3', ok, INC, upd, key='merge-commits-and-rebuilds',
+           what='merging data split over two files ends by storing range, '
+                'T_ref, H, S and the Cp table and then rebuilding the '
+                'correlation, all unconditionally',
+           found=' ; '.join(t[:40] for t in texts))
     # basis stored as read (shared with C20)
     descs = stores.get('descriptors', set())
     okd = len(descs) == 1 and all(
@@ -587,7 +597,14 @@ def code_rules(chk, repo):
                        ('pgradd/ThermoChem/raw_data.py', 'ConstantSpline'),
                        ('pgradd/ThermoChem/base.py', 'ThermochemBase')):
         for s_ in repo.cls(rel, cname).body:
-            if isinstance(s_, ast.FunctionDef):
+            if cname == 'ThermochemBase' and s_.name not in (
+                    '__init__', 'check_range', 'get_range', 'get_GoRT'):
+                continue    # dimensional getters are C07's business
+            if isinstance(s_, ast.FunctionDef) and (
+                    s_.name.startswith('get_') or s_.name in (
+                        '__init__', '__call__', 'integral', 'check_range',
+                        '_setup_correlation', '_expand_ND_Cp_data',
+                        '_get_CpoR_ar', 'yaml_construct')):
                 reviewed.check(chk, 'R14.4', repo, rel,
                                '%s.%s' % (cname, s_.name),
                                '%s.%s (group evaluation) raises under the '
